@@ -1702,16 +1702,23 @@ def _classify(kind: str, pass_name: str, model: onnx.ModelProto, fail: dict) -> 
     """Specific feature for the signature `<kind>:<PassName>:<feature>`, decided on the (minimised) model."""
     base = _base_name(pass_name)
     ops = _op_types(model)
+    detail = fail.get("detail", "")
+    if base == "CommonSubexpressionEliminationPass" and kind == "checker":
+        if "Field 'type' of 'value_info'" in detail:
+            return "output-replaced-by-untyped-value"
+        if "SSA" in detail and len({o.name for o in model.graph.output}) < len(model.graph.output):
+            return "output-listed-twice-ssa"
     if base == "IdentityEliminationPass" and _has_subgraph_output_from_outer(model):
         return "subgraph-output-from-outer"
-    if base == "RemoveUnusedNodesPass" and any(
+    if base == "RemoveUnusedNodesPass" and kind == "eval-diff" and any(
         n.op_type == "BatchNormalization" and any(a.name == "training_mode" and a.i == 1 for a in n.attribute)
         for _o, nodes in _node_lists(model) for n in nodes
     ):
         return "batchnorm-training"
-    if base in ("DeduplicateInitializersPass", "DeduplicateHashedInitializersPass") and _has_string_nul_twins(model):
+    if base in ("DeduplicateInitializersPass", "DeduplicateHashedInitializersPass") and kind == "eval-diff" \
+            and _has_string_nul_twins(model):
         return "string-nul-padding"
-    if base == "CommonSubexpressionEliminationPass" and _has_signed_zero_twins(model):
+    if base == "CommonSubexpressionEliminationPass" and kind == "eval-diff" and _has_signed_zero_twins(model):
         return "float-signed-zero"
     if base == "LiftConstantsToInitializersPass" and any(
         n.op_type == "Constant" and any(a.name == "sparse_value" for a in n.attribute)
